@@ -128,12 +128,12 @@ theorem inTest_eq (nb : Bool) (vs : List Val) (dv : Option Val) (hvs : Clean nb 
 /-- operands the ordering operators are specified on in D -/
 def CmpOperand (sv : Val) : Prop :=
   (∃ b, sv = .bool b) ∨ (∃ i, sv = .int i) ∨ (∃ m e, sv = .dbl m e) ∨ (∃ s, sv = .str s) ∨
-  (∃ u, sv = .date u none)
+  (∃ u, sv = .date u none) ∨ sv = .null
 
 theorem bsonCompare_eq (op : CmpOp) (x sv : Val) (hx : hasAware x = false)
     (hsv : CmpOperand sv) :
     bsonCompare op x sv false = .ok ((cmpLeaf op sv).onVal x) := by
-  rcases hsv with ⟨b, rfl⟩ | ⟨i, rfl⟩ | ⟨m, e, rfl⟩ | ⟨s, rfl⟩ | ⟨u, rfl⟩
+  rcases hsv with ⟨b, rfl⟩ | ⟨i, rfl⟩ | ⟨m, e, rfl⟩ | ⟨s, rfl⟩ | ⟨u, rfl⟩ | rfl
   · cases x <;> simp [bsonCompare, cmpLeaf, Val.tc, bsonCmp, leafCmp, scalarCmp, natCmp, Except.map]
   · cases x <;> simp [bsonCompare, cmpLeaf, Val.tc, bsonCmp, leafCmp, scalarCmp, natCmp, Except.map,
       Val.num?, Val.isNumber]
@@ -147,6 +147,9 @@ theorem bsonCompare_eq (op : CmpOp) (x sv : Val) (hx : hasAware x = false)
       | some o' => simp [hasAware] at hx
       | none => simp [bsonCompare, cmpLeaf, Val.tc, bsonCmp, leafCmp, scalarCmp, natCmp, Except.map, dateUtc]
     | _ => simp [bsonCompare, cmpLeaf, Val.tc, bsonCmp, leafCmp, scalarCmp, natCmp, Except.map]
+  · cases x <;> cases op <;>
+      simp [bsonCompare, cmpLeaf, Val.tc, bsonCmp, leafCmp, scalarCmp, natCmp, Except.map,
+        CmpOp.holds, Val.num?, Val.isNumber]
 
 
 theorem anyM_ok {α} (f : α → R Bool) (g : α → Bool) (xs : List α)
@@ -160,15 +163,23 @@ theorem anyM_ok {α} (f : α → R Bool) (g : α → Bool) (xs : List α)
     · rfl
 
 theorem cmpOperand_notArr {sv : Val} (h : CmpOperand sv) : sv.isArr = false := by
-  rcases h with ⟨b, rfl⟩ | ⟨i, rfl⟩ | ⟨m, e, rfl⟩ | ⟨s, rfl⟩ | ⟨u, rfl⟩ <;> rfl
+  rcases h with ⟨b, rfl⟩ | ⟨i, rfl⟩ | ⟨m, e, rfl⟩ | ⟨s, rfl⟩ | ⟨u, rfl⟩ | rfl <;> rfl
 
 theorem cmpLeaf_onVal_arr (op : CmpOp) (xs : List Val) {sv : Val} (h : CmpOperand sv) :
     (cmpLeaf op sv).onVal (.arr xs) = false := by
-  rcases h with ⟨b, rfl⟩ | ⟨i, rfl⟩ | ⟨m, e, rfl⟩ | ⟨s, rfl⟩ | ⟨u, rfl⟩ <;> simp [cmpLeaf, Val.tc]
+  rcases h with ⟨b, rfl⟩ | ⟨i, rfl⟩ | ⟨m, e, rfl⟩ | ⟨s, rfl⟩ | ⟨u, rfl⟩ | rfl <;> simp [cmpLeaf, Val.tc]
 
-theorem cmpLeaf_onMissing (op : CmpOp) {sv : Val} (h : CmpOperand sv) :
-    (cmpLeaf op sv).onMissing = false := by
-  rcases h with ⟨b, rfl⟩ | ⟨i, rfl⟩ | ⟨m, e, rfl⟩ | ⟨s, rfl⟩ | ⟨u, rfl⟩ <;> simp [cmpLeaf]
+/-- a missing field: compared as null against a null operand, no match otherwise -/
+theorem opCmp_none (op : CmpOp) {sv : Val} (h : CmpOperand sv) :
+    opCmp op none sv = .ok (cmpLeaf op sv).onMissing := by
+  rcases h with ⟨b, rfl⟩ | ⟨i, rfl⟩ | ⟨m, e, rfl⟩ | ⟨s, rfl⟩ | ⟨u, rfl⟩ | rfl
+  · cases op <;> simp [opCmp, cmpLeaf]
+  · cases op <;> simp [opCmp, cmpLeaf]
+  · cases op <;> simp [opCmp, cmpLeaf]
+  · cases op <;> simp [opCmp, cmpLeaf]
+  · cases op <;> simp [opCmp, cmpLeaf]
+  · cases op <;>
+      simp [opCmp, cmpLeaf, bsonCompare, bsonCmp, leafCmp, Val.tc, Except.map, CmpOp.holds]
 
 theorem cmpLeaf_elems (op : CmpOp) (sv : Val) : (cmpLeaf op sv).elems = true := rfl
 
@@ -176,7 +187,7 @@ theorem opCmp_eq (op : CmpOp) (sv : Val) (dv : Option Val) (hsv : CmpOperand sv)
     (hdv : OptAll (fun v => hasAware v = false) dv) :
     opCmp op dv sv = .ok ((cmpLeaf op sv).holdsOn dv) := by
   cases dv with
-  | none => simp [opCmp, Leaf.holdsOn, cmpLeaf_onMissing op hsv]
+  | none => simp [Leaf.holdsOn, opCmp_none op hsv]
   | some v =>
     have hv : hasAware v = false := hdv v rfl
     cases v with
@@ -258,7 +269,7 @@ theorem spec_nin (nb : Bool) (vs : List Val) (cs : List (Option Val)) (hs : Clea
   · intro c hc; rw [leafOp_nin_arr]; dsimp only; rw [inTest_eq nb vs c hs hsd hna (hcs c hc)]
 
 theorem cmpOperand_orderable {sv : Val} (h : CmpOperand sv) : orderable sv = true := by
-  rcases h with ⟨b, rfl⟩ | ⟨i, rfl⟩ | ⟨m, e, rfl⟩ | ⟨s, rfl⟩ | ⟨u, rfl⟩ <;> rfl
+  rcases h with ⟨b, rfl⟩ | ⟨i, rfl⟩ | ⟨m, e, rfl⟩ | ⟨s, rfl⟩ | ⟨u, rfl⟩ | rfl <;> rfl
 
 theorem spec_cmp (opn : String) (op : CmpOp) (sv : Val) (cs : List (Option Val))
     (hop : (opn = "$gt" ∧ op = .gt) ∨ (opn = "$gte" ∧ op = .gte) ∨ (opn = "$lt" ∧ op = .lt) ∨
@@ -312,21 +323,41 @@ theorem spec_exists (sv : Val) (cs : List (Option Val))
     | [c], _ => simp
     | _ :: _ :: _, hl => simp at hl
 
+/-! ### `$size` -/
+
+theorem opSize_eq (n : Int) (dv : Option Val) :
+    opSize dv (.int n) = (sizeLeaf n).holdsOn dv := by
+  cases dv with
+  | none => rfl
+  | some v =>
+    cases v <;> simp [opSize, Leaf.holdsOn, sizeLeaf, pyEq]
+    exact beq_comm' _ _
+
+theorem spec_size (n : Int) (cs : List (Option Val)) :
+    singleOp "$size" (.int n) cs = .ok ((sizeLeaf n).holds cs) ∧
+    leafHolds "$size" (.int n) cs = .ok ((sizeLeaf n).holds cs) := by
+  refine ⟨?_, by simp [leafHolds]⟩
+  rw [singleOp_pos' "$size" _ cs (sizeLeaf n).holdsOn (by decide) (by decide) (by decide)]
+  · rfl
+  · intro c _; rw [leafOp_size]; dsimp only; rw [opSize_eq]
+
 theorem cmpOperand_of_reasons (opn : String) (sv : Val) (cs : List (Option Val))
     (hop : opn = "$gt" ∨ opn = "$gte" ∨ opn = "$lt" ∨ opn = "$lte")
     (ha : hasAware sv = false) (hr : opReasons opn sv cs = []) : CmpOperand sv := by
   cases sv with
   | date u o =>
     cases o with
-    | none => exact Or.inr (Or.inr (Or.inr (Or.inr ⟨u, rfl⟩)))
+    | none => exact Or.inr (Or.inr (Or.inr (Or.inr (Or.inl ⟨u, rfl⟩))))
     | some o => simp [hasAware] at ha
   | bool b => exact Or.inl ⟨b, rfl⟩
   | int i => exact Or.inr (Or.inl ⟨i, rfl⟩)
   | dbl m e => exact Or.inr (Or.inr (Or.inl ⟨m, e, rfl⟩))
   | str s => exact Or.inr (Or.inr (Or.inr (Or.inl ⟨s, rfl⟩)))
+  | null => exact Or.inr (Or.inr (Or.inr (Or.inr (Or.inr rfl))))
   | _ => rcases hop with h | h | h | h <;> subst h <;> simp [opReasons] at hr
 
 theorem spec_single (nb : Bool) (op : String) (sv : Val) (cs : List (Option Val))
+    (hall : op ≠ "$all")
     (hr : opReasons op sv cs = []) (hs : Clean nb sv) (hcs : CandsAll (Clean nb) cs) :
     op ∈ leafOps ∧ ∃ b, singleOp op sv cs = .ok b ∧ leafHolds op sv cs = .ok b := by
   have hcsA : CandsAll (fun v => hasAware v = false) cs := fun c hc v hv => (hcs c hc v hv).2
@@ -381,6 +412,11 @@ theorem spec_single (nb : Bool) (op : String) (sv : Val) (cs : List (Option Val)
       · subst hi; right; simpa [opReasons, Val.truthy, pyEq] using hr
       · left; simp [Val.truthy, pyEq, hi]; omega
     | _ => simp [opReasons] at hr
-  simp [opReasons, h1, h2, h3, h4, h5, h6, h7, h8, h9] at hr
+  by_cases h10 : op = "$size"
+  · subst h10
+    cases sv with
+    | int n => exact ⟨by decide, _, spec_size n cs⟩
+    | _ => simp [opReasons] at hr
+  simp [opReasons, h1, h2, h3, h4, h5, h6, h7, h8, h9, h10, hall] at hr
 
 end MongoModel.Proofs.C01Lemmas
